@@ -18,7 +18,7 @@ import os
 from concurrent.futures import ThreadPoolExecutor
 
 import vlib
-from checks import g9gen, g9prog
+from checks import g9diag, g9gen, g9prog
 
 CLAIM = {
     "level": "other",
@@ -80,7 +80,7 @@ def chunks_run(ctx, impl, exports, lines, extra=(), nproc=4):
         for l in out.splitlines():
             f = l.split("\t")
             if len(f) >= 3:
-                res[f[0]] = (f[1], f[2], f[3] if len(f) > 3 else "")
+                res[f[0]] = (f[1], f[2], f[3] if len(f) > 3 else "", f[4] if len(f) > 4 else "-")
     return res
 
 
@@ -144,6 +144,12 @@ def run(ctx):
     cases = []          # (id, files, group)
     for name, src in WITNESSES.items():
         cases.append(("witness:" + name, [{"name": "a.xgo", "src": src}], "witness"))
+    # near-misses that cl diagnoses today (expected: cl reports an error) and the ones it does not (known findings)
+    diag, undiag = g9diag.all_witnesses()
+    for name, src in undiag.items():
+        cases.append(("witness:" + name, [{"name": "main.xgo", "src": src}], "witness"))
+    for name, src in diag.items():
+        cases.append(("diag:" + name, [{"name": "main.xgo", "src": src}], "diag"))
     # deterministic near-miss enumeration
     bases = []
     cdir = os.path.join(vlib.VERIF, "corpus", "C06")
@@ -179,7 +185,10 @@ def run(ctx):
     distinct = set()
     failing_det = []
     for cid, files, group in cases:
-        cv, gv, detail = res.get(cid, ("missing", "-", ""))
+        cv, gv, detail, sv = res.get(cid, ("missing", "-", "", "-"))
+        if group == "diag" and sv != "reject":
+            # the witness is supposed to be a program Go rejects
+            ctx.broken("witness(c06:%s)" % cid, "go/types verdict on the source is %s, expected reject" % sv)
         hist[cv + "/" + gv] = hist.get(cv + "/" + gv, 0) + 1
         group_hist.setdefault(group, {})
         group_hist[group][cv + "/" + gv] = group_hist[group].get(cv + "/" + gv, 0) + 1
@@ -221,16 +230,18 @@ def run(ctx):
                          {"go": src, "go_build_output": out[:3000]})
     ctx.cover(evaluations=nterms + len(cases), distinct_nontrivial=len(set(keys)) + len(distinct),
               samples=[{"term": terms[0][1][1], "impl": impl_c[0][:300], "model": model_c[0][:300]},
-                       {"case": cases[len(WITNESSES) + 1][0], "verdict": res.get(cases[len(WITNESSES) + 1][0])},
+                       {"case": cases[len(WITNESSES) + 20][0], "verdict": res.get(cases[len(WITNESSES) + 20][0])},
                        {"case": cases[-1][0], "verdict": res.get(cases[-1][0])}],
               rule="shape K-diff: %d seeded well-typed terms of the calculus (depth <= 5; %s) compiled 10 per program; verdicts: %d packages = "
-                   "%d named witnesses of known classes + %d deterministic near-miss mutants (fixed stream over %d fixed bases: corpus/C06 and "
+                   "%d named witnesses of known classes (cl reports success) + %d systematic near-misses that cl diagnoses today (type-switch duplicates over "
+                   "20 type shapes x 3 placements, expression-switch duplicates, redeclarations of fields/labels/locals/package objects, 90 typing "
+                   "errors; expected verdict: cl error; Go's rejection of each source is re-checked) + %d deterministic near-miss mutants (fixed stream over %d fixed bases: corpus/C06 and "
                    "single-file /repo corpus packages) + the bases + %d seeded valid programs (1/3 Go subset, 2/3 XGo sugar; %d also built with "
                    "`go build`); non-trivial = distinct package that reached the compiler (cl verdict ok or err). The seeded part does NOT "
                    "generate: unused variables/labels, unused comprehension variables, missing returns, misplaced break/continue/"
                    "fallthrough, duplicate methods/params/keys, constant out-of-range indexes, untyped nil, unused results, identifiers "
                    "_gop_ret/_gop_err, bodiless funcs, mixed map literals (known findings, deterministic witnesses only)."
-                   % (nterms, ", ".join("%s=%d" % kv for kv in sorted(tg.shape.items())), len(cases), len(WITNESSES), ndet, len(bases), nvalid, len(built)),
+                   % (nterms, ", ".join("%s=%d" % kv for kv in sorted(tg.shape.items())), len(cases), len(WITNESSES) + len(undiag), len(diag), ndet, len(bases), nvalid, len(built)),
               explanation="kernel type-preservation theorem + shape K-diff of the lowering + go/types and go build verdicts on generated and near-miss packages",
               verdict_histogram=hist, verdict_by_group=group_hist, shape_program_gotypes=gv_shape, term_shape_histogram=tg.shape)
     ctx.assume("go/types (in-process, gc export data of the toolchain) and `go build` of go1.23.5 stand for 'the Go toolchain accepts'",
